@@ -9,12 +9,17 @@ C++ API; with/without loopback and limiter links, split-duplex or shared links; 
      fat-tree: twice the level of the nearest common ancestors; dragonfly: minimal), every link of the topology exists;
   T  HierTrace: the route of Host::route_to, mapped to hops through the link names, is a behaviour of the topology's
      machine; limiter links exactly once per traversed node, loopback links only from a node to itself.
-Mutations: see the end of this docstring."""
+Binding demonstrated (scratch worktree of /repo, quick tier):
+  * proposed/fix-C26-dragonfly.diff applied: 10997 routes asked, 10997 accepted, no known finding;
+  * m6 TorusZone::get_local_route direction test negated (the longer way round): CAUGHT (exit 1, 5260 routes);
+  * m7 TorusZone forgets the limiter link of the receiver: CAUGHT (exit 1, 2110 routes of the shapes with limiters);
+  * planned, not run: FatTreeZone goes one level above the nearest common ancestor; StarZone does not remove repeated links."""
 import random
 import vlib
 import routing_common as R
 
 LEVEL = "model_checking"
+META = {'text': "For torus shapes (<= 5 dimensions / 64 nodes), fat-trees (<= 3 levels), dragonflies (<= 3x3x3x3), flat <cluster>s loaded from XML and Star zones, with/without loopback and limiter links and split-duplex or shared links, TLC validates the route of Host::route_to for all node pairs, mapped to hops through the link names, as a behaviour of the topology's forwarding machine (spec/routing/Torus.tla: one dimension at a time along a shorter way round; FatTree.tla: up to a nearest common ancestor then down; Dragonfly.tla: node-router-chassis-group minimal routing; Star.tla: up links then down links without repetition; limiters once per traversed node, loopbacks only to oneself) and model-checks the machines (destination reached with the closed-form hop count).", 'note': 'Trusted: TLC, the driver, the mapping of link names to the topology (numbers in the names, order of creation for parallel cables). Quick tier: a fixed core of shapes + a seeded sample; thorough tier: every torus and dragonfly shape of the quantifier, a sample of 250 fat-trees. Ties (direction at equal distance, order of dimensions, parent/cable choice, green/black order) are left open. Routes hit by the two recorded DragonflyZone defects are reported as KNOWN-FINDING.', 'technique': 'TLC model checking of Torus/FatTree/Dragonfly/Star through Hier (HierMC) + TLC trace validation of Host::route_to results (HierTrace)'}
 DRIVERS = R.DRIVERS
 
 
